@@ -48,9 +48,22 @@ def gen_history(rng, length):
             ops.append(["close", str(rng.randrange(created))])
         elif r < 0.91:
             ops.append(["edit", str(rng.randrange(created)), str(rng.randrange(6))])
+        elif rng.random() < 0.08 and created > 1:
+            ops.append(["share", str(rng.randrange(created)), str(rng.randrange(created))])
         else:
             ops.append(["io", str(rng.randrange(created)), str(rng.randrange(N_IO))])
     return ops
+
+
+# `share I J`: model J binds (as S.io99_shared) the very OBJECT model I keeps in an EXTERNAL file - no spec asked for.
+# `get_spec_from_value` of J then finds I's spec in the session-wide group None, and a close of J / a deletion of that
+# reference in J deletes it (and the other way round): the cross-model variant of C18-absolute-io-shared.  SHARE_SCENARIOS
+# run first on every check; the isolation oracle recognises the failure ONLY in this shape (`shared_external_names`).
+SHARE_SCENARIOS = [
+    [["new", "A"], ["new", "B"], ["share", "0", "1"], ["close", "1"], ["edit", "0", "0"]],
+    [["new", "A"], ["new", "B"], ["share", "0", "1"], ["close", "0"], ["io", "1", "0"]],
+    [["new", "A"], ["new", "B"], ["new", "-"], ["share", "1", "2"], ["io", "2", "7"], ["close", "2"], ["close", "0"]],
+]
 
 
 # the `io` op: the model acquires / releases / shares a value with an IOSpec.  File kinds x path kinds:
@@ -72,6 +85,7 @@ class Impl:
         self.template = None
         self.shown = {}       # id(pandas object) -> (the object, its text): contents never change in a session
         self.nio = {}         # creation index -> number of io names handed out
+        self.shared_any = False
         self.shadow = iosession.Shadow(tmp)   # the same session as operations of the Lean kernel IOSession
 
     def saved_path(self, name, broken):
@@ -172,6 +186,16 @@ class Impl:
                         self._io(m, int(op[1]), int(op[2]))
                     except Exception:
                         pass                # refused (e.g. through the handle of a closed model): changes nothing
+                    return "skip"
+                if kind == "share":
+                    a = self.models[int(op[1])] if int(op[1]) < len(self.models) else None
+                    b = self.models[int(op[2])] if int(op[2]) < len(self.models) else None
+                    if a is None or b is None or a is b:
+                        return "skip"
+                    try:
+                        self._share(a, b, int(op[2]))
+                    except Exception:
+                        pass
                     return "skip"
                 if kind == "edit":
                     m = self.models[int(op[1])] if int(op[1]) < len(self.models) else None
@@ -275,6 +299,30 @@ class Impl:
                     sh.bind(i, "", x + "_alias", v)
                     break
 
+    def _share(self, a, b, j):
+        """b.S.io99_shared = the object of a's first reference that has a spec under an absolute path"""
+        for sp in a._impl.refmgr.specs:
+            if os.path.isabs(str(sp.path)):
+                sb = b.S if "S" in b.spaces else b.new_space("S")
+                setattr(sb, "io99_shared", sp.value)
+                self.shared_any = True
+                self.shadow.bind(j, "S", "io99_shared", sp.value)
+                return
+
+    def shared_external_names(self, i, j):
+        """names (`space.name`) under which model #i references an object that model #j references too and whose spec
+        sits in the session-wide group None - the shape of the cross-model variant of C18-absolute-io-shared"""
+        iom = mx.core.mxsys.iomanager
+        ext = [sp.value for io in iom.get_ios(None).values() for sp in io.specs.values()]
+        def named(m):
+            res = [("", k, r.interface) for k, r in m._impl.own_refs.items() if k != "__builtins__"]
+            for sn, sp_ in m._impl.spaces.items():
+                res.extend((sn, k, r.interface) for k, r in sp_.own_refs.items())
+            return res
+        mine, other = named(self.models[i]), named(self.models[j])
+        return set("%s.%s" % (sn, k) for sn, k, v in mine
+                   if any(v is e for e in ext) and any(v is w for _, _, w in other))
+
     def _edit(self, m, k):
         s = m.S if "S" in m.spaces else m.new_space("S")
         if k == 0:
@@ -368,6 +416,23 @@ class Impl:
         return missing
 
 
+def _only_specs_of(before, after, names):
+    """the two descriptions differ ONLY in the IOSpec of the values bound to `names` (non-empty): iospecs entries of
+    exactly those values are gone, `get_spec` of exactly those names changed; everything else is equal"""
+    if not names:
+        return False
+    for k in set(before) | set(after):
+        if k not in ("iospecs", "spec_of") and before.get(k) != after.get(k):
+            return False
+    gone = [x for x in before["iospecs"] if x not in after["iospecs"]]
+    new = [x for x in after["iospecs"] if x not in before["iospecs"]]
+    if new or any(not (set(x[-1].split(",")) & names) for x in gone):
+        return False
+    changed = [n for n in set(before["spec_of"]) | set(after["spec_of"])
+               if before["spec_of"].get(n) != after["spec_of"].get(n)]
+    return all(n in names for n in changed)
+
+
 def _frame(i):
     df = pd.DataFrame({"a": [i, i + 1, i + 2], "b": [10 * i, 5, 7]})
     df.index.name = "k"
@@ -410,10 +475,16 @@ def run_history(ops, out, hist_id, stats, final_write=True):
             desc_before = {i: cache[i] if i in cache else impl.describe(m) for i, m in before.items()}
             cache = {}
             reg_before = [(key, id(im)) for key, im in mx.core.mxsys.models.items()]
+            shared_before = {}
+            if impl.shared_any and op[0] in ("close", "io", "share") and op[1].isdigit() \
+                    and int(op[1]) < len(impl.models) and impl.models[int(op[1])] is not None:
+                jj = int(op[2]) if op[0] == "share" else int(op[1])
+                if jj < len(impl.models) and impl.models[jj] is not None:
+                    shared_before = {i: impl.shared_external_names(i, jj) for i in before if i != jj}
             impl.shadow.k = k
             res = impl.apply(op)
             impl.shadow.observe()
-            if op[0] in ("edit", "io"):
+            if op[0] in ("edit", "io", "share"):
                 if reg_before != [(key, id(im)) for key, im in mx.core.mxsys.models.items()]:
                     out.fail("an edit of a model changed the registry", ops[:k + 1])
                 if int(op[1]) < len(impl.models) and impl.models[int(op[1])] is not None \
@@ -425,7 +496,7 @@ def run_history(ops, out, hist_id, stats, final_write=True):
             obs = impl.observe()
             if "_BAK" in obs:
                 stats["hist_with_backup_name"].add(hist_id)
-            if op[0] not in ("edit", "io"):
+            if op[0] not in ("edit", "io", "share"):
                 model_ops.append(" ".join(op))
                 impl_lines.append(res)
                 index_map.append(k)
@@ -447,11 +518,16 @@ def run_history(ops, out, hist_id, stats, final_write=True):
                 if not closing_it and not present:
                     out.fail("model #%d dropped from the registry by %s" % (i, op[0]), ops[:k + 1])
                 if present and not closing_it:
-                    touched = op[0] in ("edit", "io", "rename") and int(op[1]) == i
+                    touched = (op[0] in ("edit", "io", "rename") and int(op[1]) == i) or \
+                              (op[0] == "share" and int(op[2]) == i)
                     d = cache[i] = impl.describe(m)
                     if not touched and d != desc_before[i]:
+                        key = None
+                        if _only_specs_of(desc_before[i], d, shared_before.get(i, set())):
+                            key = "C18-absolute-io-shared"
+                            stats["known_shared_external_value"] = stats.get("known_shared_external_value", 0) + 1
                         out.fail("model #%d changed by an operation on another model (%s)" % (i, op[0]),
-                                 ops[:k + 1], detail={"before": desc_before[i], "after": d})
+                                 ops[:k + 1], detail={"before": desc_before[i], "after": d}, key=key)
                     if op[0] == "rename" and touched and d != desc_before[i]:
                         out.fail("rename changed definitions or values of the model", ops[:k + 1])
                     if d["iospecs"]:
@@ -503,7 +579,7 @@ def run(ctx, out):
          ["close", "0"], ["new", "-"]],
         [["new", "A"], ["read", "A", "0"], ["read", "A", "1"], ["rename", "0", "B", "0"], ["rename", "1", "B", "0"]],
     ]
-    corpus = corpus + iosession.corpus_histories("C19")
+    corpus = corpus + iosession.corpus_histories("C19") + SHARE_SCENARIOS
     hists = list(corpus)
     for i in range(n_hist):
         hists.append(gen_history(ctx.rng("hist", i), length))
